@@ -155,11 +155,15 @@ fn degenerate_strategy() -> impl Strategy<Value = G> {
     let c = || (0i64..9, 0i64..9);
     prop_oneof![
         // flat polygon: all vertices collinear
-        (c(), -3i64..4, -3i64..4, proptest::collection::vec(0i64..5, 2..5)).prop_map(|(o, dx, dy, ts)| {
-            let mut r: Vec<C> = ts.iter().map(|t| (o.0 + dx * t, o.1 + dy * t)).collect();
+        // (half of the time with a flat hole on the same line: the outline to fall back to is still the exterior's)
+        (c(), -3i64..4, -3i64..4, proptest::collection::vec(0i64..5, 2..5), 0u8..16).prop_map(|(o, dx, dy, ts, hole)| {
+            let at = |t: i64| (o.0 + dx * t, o.1 + dy * t);
+            let mut r: Vec<C> = ts.iter().map(|t| at(*t)).collect();
             r.insert(0, o);
             r.push(o);
-            G::Polygon(Poly::new(r, vec![]))
+            let (h0, h1) = ((hole >> 1) as i64 & 3, (hole >> 3) as i64 + 1);
+            let holes = if hole & 1 == 1 && (dx, dy) != (0, 0) { vec![vec![at(h0), at(h0 + h1), at(h0)]] } else { vec![] };
+            G::Polygon(Poly::new(r, holes))
         }),
         // single-point polygon
         c().prop_map(|p| G::Polygon(Poly::new(vec![p, p, p, p], vec![]))),
